@@ -1,6 +1,7 @@
 """C02 — enum wire encoding (variant names, tag and content keys) equals serde's.
 
-Generator: unit enums and adjacently tagged enums with UpperCamelCase variants.  Correspondence: the
+Generator: unit enums and adjacently tagged enums with UpperCamelCase variants (identifiers over [A-Za-z0-9] and, in
+`unicode_names_part`, over an alphabet with cased letters outside ASCII).  Correspondence: the
 text of parse -> reconcile -> generate_types in-process vs the Lean back-end models, byte-exact, all
 six languages.  Oracle: per-language extractors over the IMPLEMENTATION's text recover, per enum,
 (case identifier, wire name) for every case and every place a tag / content key is printed; they are
@@ -39,19 +40,43 @@ WORDS = list(VARIANT_WORDS) + ["UserId", "HttpUrl", "Type", "Default", "Case", "
 
 # ----------------------------------------------------------------------------- serde, independently
 
+def ascii_lower(s):
+    """`str::to_ascii_lowercase`: A-Z only, every other character is kept"""
+    return "".join(chr(ord(c) + 32) if "A" <= c <= "Z" else c for c in s)
+
+
+def ascii_upper(s):
+    """`str::to_ascii_uppercase`: a-z only"""
+    return "".join(chr(ord(c) - 32) if "a" <= c <= "z" else c for c in s)
+
+
+RUST_UPPER = {}      # char -> char::is_uppercase as Rust std answers it (filled through the runner's `unicode` op)
+
+
+def is_uppercase(ch):
+    if ord(ch) < 128:
+        return "A" <= ch <= "Z"
+    return RUST_UPPER.get(ch, ch.isupper())
+
+
 def serde_variant(rule, ident):
-    """`RenameRule::apply_to_variant` of serde_derive (ASCII identifiers)"""
+    """`RenameRule::apply_to_variant` of serde_derive: the case mapping is ASCII-only (`to_ascii_lowercase` /
+    `to_ascii_uppercase`: a letter outside ASCII keeps its case), the word boundary of the snake family is
+    `char::is_uppercase` (Unicode).  camelCase slices the first *byte* off: serde_derive panics on an identifier
+    whose first character is not ASCII (None here: the user's crate does not compile, there is no wire name)"""
     if rule is None or rule not in RULES or rule == "PascalCase":
         return ident
     if rule == "lowercase":
-        return ident.lower()
+        return ascii_lower(ident)
     if rule == "UPPERCASE":
-        return ident.upper()
+        return ascii_upper(ident)
     if rule == "camelCase":
-        return ident[:1].lower() + ident[1:]
-    snake = "".join(("_" if i > 0 and ch.isupper() else "") + ch.lower() for i, ch in enumerate(ident))
-    return {"snake_case": snake, "SCREAMING_SNAKE_CASE": snake.upper(), "kebab-case": snake.replace("_", "-"),
-            "SCREAMING-KEBAB-CASE": snake.upper().replace("_", "-")}[rule]
+        if ident[:1] and ord(ident[0]) > 127:
+            return None
+        return ascii_lower(ident[:1]) + ident[1:]
+    snake = "".join(("_" if i > 0 and is_uppercase(ch) else "") + ascii_lower(ch) for i, ch in enumerate(ident))
+    return {"snake_case": snake, "SCREAMING_SNAKE_CASE": ascii_upper(snake), "kebab-case": snake.replace("_", "-"),
+            "SCREAMING-KEBAB-CASE": ascii_upper(snake).replace("_", "-")}[rule]
 
 
 def ts_pascal(s):
@@ -167,7 +192,7 @@ def make_enum(name, rule, variants, keys, generic=False, recursive=False, salt=0
         attrs = attrs[1:] + attrs[:1]
     gs = [("ty", "T")] if generic and not unit else []
     item = {"kind": "enum", "attrs": attrs, "ident": name, "generics": gs, "variants": vs}
-    return item, dict(name=name, unit=unit, tag=tag, content=content, variants=exp_v)
+    return item, dict(name=name, unit=unit, tag=tag, content=content, variants=exp_v, rule=rule)
 
 
 COLLIDING = [("FooBar", "Foobar"), ("UserId", "UserID"), ("FooBar", "FooBAR"), ("HttpUrl", "HttpURL")]
@@ -476,14 +501,15 @@ def oracle(lang, cfg, text, exps):
         for p in g["problems"]:
             problems.append(("unrecognised", p))
         want = [v["wire"] for v in exp["variants"]]
+        under = " (rename_all = \"%s\")" % exp["rule"] if exp.get("rule") else ""
         if lang == "python":
             have = [w for _, w in g["cases"]]
             if len(have) != len(want) or any(x not in cands for x, cands in zip(want, have)):
-                problems.append(("names", "wire names %r, serde gives %r" % (have, want)))
+                problems.append(("names", "wire names %r, serde gives %r%s" % (have, want, under)))
         else:
             have = [w for _, w in g["cases"]]
             if have != want:
-                problems.append(("names", "wire names %r, serde gives %r" % (have, want)))
+                problems.append(("names", "wire names %r, serde gives %r%s" % (have, want, under)))
         ids = [i for i, _ in g["cases"] if i is not None]
         if len(set(ids)) != len(ids):
             problems.append(("distinct", "two variants share one case identifier: %r" % ids))
@@ -783,6 +809,257 @@ def on_disk_part(check):
                 return
 
 
+# ----------------------------------------------------------------------------- variant identifiers outside ASCII
+
+# the alphabet, by what Unicode says about the letter's case (every letter is XID, NFC-stable: a Rust identifier as written)
+UNI_CLASSES = {
+    "upper": "ÖÉÑΩΣЖǄ",       # upper-case, the lower case is one letter (Ǆ: a digraph)
+    "upper-expanding": "İ",    # upper-case, the lower case is two code points
+    "title": "ǅǲ",            # title-case digraphs: neither char::is_uppercase nor is_lowercase, both mappings change them
+    "lower": "öéñωσжǆ",        # lower-case, the upper case is one letter
+    "lower-expanding": "ßŉǰﬁ",  # lower-case, the upper case is two letters (SS, ʼN, J̌, FI)
+    "lower-to-ascii": "ıſ",    # lower-case, the upper case is an ASCII letter (I, S)
+    "lower-only": "ĸς",        # lower-case without an upper case of its own / final sigma (upper case Σ, whose lower case is σ)
+    "caseless": "日",          # a letter without case
+}
+UNI_CAPS = ("upper", "upper-expanding", "title")
+UNI_WORDS = ["Café", "Straße", "Öffnen", "Schließen", "Größe", "ÉtéIndien", "Ωmega", "Ǆungla", "ǅemal", "İstanbul", "Dıyarbakır",
+             "Waſſer", "ΑλφαBeta", "NaïveBayes", "Señor", "ŒuvreD1", "Žlutý", "ЖукBug", "ÅngströmUnit", "Tōkyō", "ΟδόςAlpha", "Ærø"]
+UNI_KEY_PAIRS = [("größe", "wert"), ("τύπος", "δεδομένα"), ("Art", "İçerik"), ("ıd", "ßody")]
+UNI_ALLCAPS_ID = "ascii-allcaps-test-on-unicode-names"
+
+
+def uni_class(ch):
+    for k, v in UNI_CLASSES.items():
+        if ch in v:
+            return k
+    return None
+
+
+def uni_pool():
+    """every letter of the alphabet at every position an UpperCamelCase identifier has for it: a capital as the first letter of
+    the first / an inner / the last (one-letter) word, a small or caseless letter inside and at the end of a word - each time next
+    to ASCII letters (so that the identifier has an ASCII lower-case letter: see `unicode_names_part`)"""
+    out = []
+    for k, letters in UNI_CLASSES.items():
+        for c in letters:
+            if k in UNI_CAPS:
+                out += [c + "ab", "Ab" + c + "d", "Ab" + c, c + "a" + c + "b"]
+            else:
+                out += ["A" + c + "b", "Ab" + c, "Ab" + c + "Cd", "X" + c + c + "y"]
+    return out + UNI_WORDS
+
+
+def uni_random_ident(rng, ascii_first, ascii_lower_letter=True):
+    """1-3 words, each a capital (ASCII or not) and 0-3 small letters / digits (ASCII or not)"""
+    caps = "".join(UNI_CLASSES[k] for k in UNI_CAPS)
+    smalls = "".join(v for k, v in UNI_CLASSES.items() if k not in UNI_CAPS)
+    words = []
+    for w in range(rng.choice([1, 2, 2, 3])):
+        cap = rng.choice("ABDEFGHIKMNOSTZ") if (w == 0 and ascii_first) or rng.random() < 0.4 else rng.choice(caps)
+        if not ascii_lower_letter and w > 0:
+            cap = rng.choice(caps)
+        tail = ""
+        for _ in range(rng.choice([0, 1, 2, 2, 3])):
+            r = rng.random()
+            tail += rng.choice(smalls) if r < 0.5 or not ascii_lower_letter else (rng.choice("0123456789") if r < 0.58 else rng.choice("abeiklnorstuz"))
+        words.append(cap + tail)
+    s_ = "".join(words)
+    if ascii_lower_letter and not re.search("[a-z]", s_):
+        words[0] += rng.choice("aeiou")
+        s_ = "".join(words)
+    if not ascii_lower_letter and len(s_) < 2:
+        s_ += rng.choice(UNI_CLASSES["lower"])
+    return s_
+
+
+def unicode_mapped(rule, ident):
+    """what the rule gives when the *Unicode* case mapping is used where serde uses the ASCII one (the neighbouring
+    implementation): only to count how many of the explored variants tell the two apart"""
+    if rule in (None, "PascalCase"):
+        return ident
+    if rule == "lowercase":
+        return ident.lower()
+    if rule == "UPPERCASE":
+        return ident.upper()
+    if rule == "camelCase":
+        return ident[:1].lower() + ident[1:]
+    snake = "".join(("_" if i > 0 and is_uppercase(ch) else "") + ch.lower() for i, ch in enumerate(ident))
+    return {"snake_case": snake, "SCREAMING_SNAKE_CASE": snake.upper(), "kebab-case": snake.replace("_", "-"),
+            "SCREAMING-KEBAB-CASE": snake.upper().replace("_", "-")}[rule]
+
+
+def uni_enums(rng, idents, rule, name_of, unit_first):
+    """enums of 1-5 variants over `idents` (all of them used once), alternately unit enums and adjacently tagged enums"""
+    enums, i, n = [], 0, 0
+    while i < len(idents):
+        k = rng.choice([1, 2, 3, 3, 4, 5])
+        chunk, i = idents[i:i + k], i + k
+        unit = (n % 2 == 0) == unit_first
+        variants = []
+        for w in chunk:
+            v = dict(ident=w, kind="u" if unit else rng.choice("uts"), rename=rng.choice(RENAMES) if rng.random() < 0.08 else None)
+            if rng.random() < 0.05:
+                v["doc"] = " A doc line"
+            variants.append(v)
+        if not unit and all(v["kind"] == "u" for v in variants):
+            variants[rng.randrange(len(variants))]["kind"] = rng.choice("ts")
+        keys = rng.choice(UNI_KEY_PAIRS) if rng.random() < 0.25 else rng.choice(KEY_PAIRS)
+        enums.append(make_enum(name_of(n), rule, variants, keys, generic=not unit and rng.random() < 0.15,
+                               recursive=not unit and rng.random() < 0.15, salt=rng.randint(0, 999)))
+        n += 1
+    return enums
+
+
+def shrink_to_enum(f, gen):
+    """a finding of the oracle about one enum of a file: the same request with that enum alone, when the output for it still
+    violates the property (otherwise the finding as it is)"""
+    if f["kind"] != "violation-input" or not f.get("enum") or len(f["case"]["exps"]) < 2:
+        return f
+    c = f["case"]
+    keep = [(it, e) for it, e in zip(c["file"]["items"], c["exps"]) if e["name"] == f["enum"]]
+    if len(keep) != 1 or keep[0][0].get("ident") != f["enum"]:
+        return f
+    _, again = evaluate([build_case(c["lang"], c["cfg"], keep, gen)])
+    again = [g for g in again if g["kind"] == "violation-input" and g.get("enum") == f["enum"]]
+    return again[0] if again else f
+
+
+def unicode_tie(check, pairs):
+    """the port of apply_to_variant equals the vendored serde_derive case.rs on every (rule, identifier) the part uses"""
+    pairs = sorted(set(pairs))
+    ans = runner([{"op": "serde", "pos": "variant", "rule": r, "s": w} for r, w in pairs])
+    for (r, w), a in zip(pairs, ans):
+        if a.get("ok") != serde_variant(r, w):
+            check.violation("the check's port of serde's apply_to_variant disagrees with the vendored case.rs on (%s, %s): %r vs %r"
+                            % (r, w, serde_variant(r, w), a), case={"rule": r, "ident": w}, impl=a, failing_input=False,
+                            broken="specification tie (tools/c02.py serde_variant, identifiers outside ASCII)")
+            return False
+    check.count("serde-spec-tie-unicode", len(pairs))
+    return True
+
+
+def unicode_names_part(check, gen):
+    """Dimension: the *alphabet of the variant identifiers*.  The other parts draw identifiers from [A-Za-z0-9]; here they are
+    UpperCamelCase identifiers over an alphabet with cased letters outside ASCII - upper-case letters whose lower case is one
+    letter (Ö É Ñ Ω Σ Ж Ǆ) or two code points (İ), title-case digraphs (ǅ ǲ), lower-case letters whose upper case is one
+    letter (ö é σ ж …), two letters (ß ŉ ǰ ﬁ), an ASCII letter (ı ſ) or missing (ĸ, final ς), a caseless letter (日) - each at
+    every position (first letter, first letter of an inner / of the last word, inside and at the end of a word), plus a
+    dictionary of words and random identifiers; unit enums and adjacently tagged enums (unit / newtype / struct variants,
+    sometimes generic / recursive, a few explicit renames, tag / content keys with and without letters outside ASCII), no rule
+    and all eight rename_all rules, random back-end configurations, all six languages.
+    Demand: the property itself, on the implementation's text - C02's extractors recover the wire name of every case and
+    every printed tag / content key; they must be serde's (`apply_to_variant`: ASCII-only case mapping, word boundary before
+    every `char::is_uppercase` letter; the port is compared with the vendored serde_derive on every identifier used).  The
+    text is also compared byte for byte with the Lean back-end models (which get the Unicode facts of exactly these letters
+    from Rust std).
+    Scope notes.  (1) Under camelCase serde_derive slices the first *byte* off the identifier and panics when the first
+    letter is outside ASCII (the user's crate does not compile): camelCase enums get identifiers with an ASCII first letter.
+    (2) Identifiers *without any ASCII lower-case letter* (`ΑλφαΒήτα`, `ÖßÉé`) are explored as a class of their own
+    (`unicode_allcaps_class`): typeshare's test "is the name all capitals" is ASCII-only and takes them for all-capitals
+    names."""
+    rng = random.Random(check.seed * 7919 + 17)
+    RUST_UPPER.update({r[0]: r[1] for r in unicode_table(set("".join(UNI_CLASSES.values()) + "".join(UNI_WORDS)))})
+    pool = uni_pool()
+    n_random = 120 if check.thorough else 24
+    rounds = 4 if check.thorough else 1
+    cases, pairs = [], []
+    sensitive = 0
+    for rule in [None] + RULES:
+        for rnd in range(rounds):
+            idents = list(pool)
+            seen = set(idents)
+            while len(idents) < len(pool) + n_random:
+                w = uni_random_ident(rng, ascii_first=rng.random() < 0.5)
+                if w not in seen:
+                    seen.add(w)
+                    idents.append(w)
+            if rule == "camelCase":
+                idents = [w for w in idents if ord(w[0]) < 128]
+            rng.shuffle(idents)
+            enums = uni_enums(rng, idents, rule, lambda n: "%s%d" % (ENUM_NAMES[n % len(ENUM_NAMES)], n), unit_first=rnd % 2 == 0)
+            for w in idents:
+                check.count("unicode-variants")
+                if rule is not None:
+                    pairs.append((rule, w))
+                    if unicode_mapped(rule, w) != serde_variant(rule, w):
+                        sensitive += 1
+                for k in {uni_class(ch) for ch in w} - {None}:
+                    check.count("unicode-class:" + k)
+            check.count("unicode-rule:%s" % rule, len(idents))
+            per_file = 6
+            for i in range(0, len(enums), per_file):
+                for lang in LANGS:
+                    cases.append(build_case(lang, random_cfg(rng, lang), enums[i:i + per_file], gen))
+    check.count("unicode-variants-telling-ascii-from-unicode-case-mapping", sensitive)
+    check.count("unicode-requests", len(cases))
+    if not unicode_tie(check, pairs):
+        return
+    c = next(c for c in cases if c["lang"] == "kotlin" and any(not e["unit"] for e in c["exps"]))
+    check.samples.append({"lang": c["lang"], "config": c["cfg"], "source": c["src"],
+                          "serde": [{"enum": e["name"], "wire": [v["wire"] for v in e["variants"]], "tag": e["tag"], "content": e["content"]}
+                                    for e in c["exps"]]})
+    stats, findings = evaluate(cases)
+    shrunk = 0
+    for i, f in enumerate(findings):
+        if f["kind"] == "violation-input" and shrunk < 5:      # `report` keeps five
+            findings[i], shrunk = shrink_to_enum(f, gen), shrunk + 1
+    report(check, stats, findings)
+    if not check.has_failing():
+        unicode_allcaps_class(check, gen, rng)
+
+
+def unicode_allcaps_class(check, gen, rng):
+    """UpperCamelCase identifiers with no ASCII lower-case letter at all (Greek, Cyrillic, `ÖßÉé`, with or without ASCII
+    capitals and digits), under the eight rules, all six languages.  typeshare decides "the name is all capitals" (the
+    `URL` / `TOTP` special case of to_pascal_case / to_snake_case) with `to_ascii_uppercase() == name`, which holds for every
+    such identifier: the snake family then sets no `_` before the inner capitals and PascalCase / camelCase lower-case the
+    ASCII capitals of the tail, where serde does neither.  A wrong wire *name* in this class is recorded under the finding
+    id `%s` when KNOWN_FINDINGS.txt lists it as open, otherwise as a note of the run (the class is outside the conventional
+    identifiers the property quantifies over only by reading "UpperCamelCase" as ASCII); every other facet (keys, one case
+    per variant, recognisable declarations) and the comparison with the model are demanded as everywhere else."""
+    fixed = ["ΑλφαΒήτα", "ÖßÉé", "ЖукМир", "Éé", "ΩσΣς", "ÉéB", "ΟδόςA", "ǅöǲé", "İıİı", "Ж1Ω2", "ÑñA1Éé"]
+    cases, pairs = [], []
+    for rule in RULES:
+        idents, seen = list(fixed), set(fixed)
+        while len(idents) < len(fixed) + (40 if check.thorough else 8):
+            w = uni_random_ident(rng, ascii_first=False, ascii_lower_letter=False)
+            if w not in seen and not re.search("[a-z]", w):
+                seen.add(w)
+                idents.append(w)
+        if rule == "camelCase":
+            continue        # the first letter is outside ASCII: serde_derive itself fails
+        rng.shuffle(idents)
+        pairs += [(rule, w) for w in idents]
+        enums = uni_enums(rng, idents, rule, lambda n: "%s%d" % (ENUM_NAMES[n % len(ENUM_NAMES)], n), unit_first=True)
+        check.count("unicode-allcaps-class-variants", len(idents))
+        for i in range(0, len(enums), 6):
+            for lang in LANGS:
+                cases.append(build_case(lang, random_cfg(rng, lang), enums[i:i + 6], gen))
+    RUST_UPPER.update({r[0]: r[1] for r in unicode_table({ch for _, w in pairs for ch in w if ord(ch) > 127})})
+    if not unicode_tie(check, pairs):
+        return
+    stats, findings = evaluate(cases)
+    rest, n_class = [], 0
+    for f in findings:
+        if f["kind"] == "violation-input" and f.get("facets") == ["names"]:
+            n_class += 1
+            if n_class == 1:
+                f = shrink_to_enum(f, gen)
+            c = f["case"]
+            witness = {"lang": c["lang"], "config": c["cfg"], "source": c["src"], "what": f["what"]}
+            if not check.known(UNI_ALLCAPS_ID, witness) and n_class == 1:
+                check.notes.append("identifiers without an ASCII lower-case letter (class %s, not listed as an open finding): %s; source: %s"
+                                   % (UNI_ALLCAPS_ID, f["what"], " ".join(c["src"].split())[:400]))
+        else:
+            rest.append(f)
+    check.count("unicode-allcaps-class-requests-with-a-name-differing-from-serde", n_class)
+    report(check, stats, rest)
+
+
+unicode_allcaps_class.__doc__ = unicode_allcaps_class.__doc__ % UNI_ALLCAPS_ID
+
+
 def run(check):
     rng = check.rng
     check.nontrivial = Counted()
@@ -793,7 +1070,9 @@ def run(check):
                   "configurations (prefixes, packages, Go acronyms), six languages; byte-exact comparison of the generated "
                   "text with the Lean models, and the oracle (extractor over the implementation's text vs serde's names "
                   "and keys computed from the AST) on every output; non-trivial = the enum is algebraic or some variant's "
-                  "wire name differs from its identifier")
+                  "wire name differs from its identifier; plus (unicode_names_part) the same kinds of enums with variant "
+                  "identifiers over an alphabet with non-ASCII upper- / lower- / title-case and caseless letters (ß, ı, ǅ, İ, Σ/ς, "
+                  "Greek, Cyrillic) at every position, none + 8 rules, six languages")
     serde_tie(check)
     replay_witnesses(check, gen)
     n_files = 1200 if check.thorough else 400
@@ -806,6 +1085,8 @@ def run(check):
     report(check, stats, findings)
     if stats["rejected"] * 10 > stats["cases"]:
         check.notes.append("%d of %d requests were rejected by implementation and model alike" % (stats["rejected"], stats["cases"]))
+    if not check.has_failing():
+        unicode_names_part(check, gen)
     if check.thorough and not check.has_failing():
         thorough(check)
     if not check.has_failing():
@@ -814,4 +1095,7 @@ def run(check):
         "convert_case's snake-casing (Python member names) is external: taken from the real crate through the runner",
         "an enum whose variants share a *wire* name (possible through serde(rename)) is inside the scope; the property "
         "demands distinct case identifiers, not distinct wire names",
+        "identifiers outside ASCII: char::is_uppercase of the letters used is taken from Rust std (runner op `unicode`), serde's "
+        "names from the python port of apply_to_variant, compared with the vendored serde_derive case.rs on every identifier "
+        "used; camelCase enums only get identifiers with an ASCII first letter (serde_derive panics on the others)",
     ]
